@@ -278,3 +278,31 @@ func TestF20(t *testing.T) {
 		t.Fatalf(`/advertx{0}zone/ does not fire on advertzone (shortcut %q)`, mk(t, `/advertx{0}zone/`).Shortcut)
 	}
 }
+
+// F21 (C06, recorded, not repaired): a $urlblock and a $genericblock exception matching the
+// referrer tie in priority; the one listed first becomes the document rule, so a
+// domain-specific blocking rule is suppressed under one order of the rules and blocks under
+// the other.  The property demands a verdict that does not depend on the order.
+func TestF21_KnownFinding(t *testing.T) {
+	urlblock := mk(t, "@@||example.org^$urlblock")
+	genericblock := mk(t, "@@||example.org^$genericblock")
+	block := mk(t, "||ads.example.net^$domain=example.org")
+	class := func(source []*rules.NetworkRule) string {
+		res := rules.NewMatchingResult([]*rules.NetworkRule{block}, source)
+		r := res.GetBasicResult()
+		switch {
+		case r == nil:
+			return "none"
+		case r.Whitelist:
+			return "allow"
+		default:
+			return "block"
+		}
+	}
+	a := class([]*rules.NetworkRule{urlblock, genericblock})
+	b := class([]*rules.NetworkRule{genericblock, urlblock})
+	if a == b {
+		t.Fatalf("the verdict no longer depends on the order (%s): remove F21 from known_findings.json", a)
+	}
+	t.Logf("known finding F21: verdict %q with the $urlblock exception first, %q with the $genericblock exception first", a, b)
+}
